@@ -161,7 +161,7 @@ def dispatch(rep, an):
     res = an.run(f"{EST}.fit", kws=dict(model=const("bogus"), B=arr("B", S("N", "F"), U_REL, "TOTAL")), self_fields=fields,
                  config="model=bogus")
     raised = [e for e in res.events("raise") if len(e.path) == 1]
-    rep.check("R-DISPATCH", "fit(model=<unknown>) raises", bool(raised) and not [r for r in res.events("return") if len(r.path) == 1],
+    rep.check("R-DISPATCH", "fit(model=<unknown>) raises", F.raises(res),
               where=res.fn.loc(), construct="fit(model='bogus')", entry="ReceptorEstimator.fit", config=res.config)
     # lsq_linear's own table
     for m in ("gaussian", "poisson"):
@@ -173,5 +173,5 @@ def dispatch(rep, an):
                   where=res.fn.loc(), construct=f"lsq_linear(model='{m}')", entry="lsq_linear", config=res.config)
     kw = lsq_inputs(); kw.update(base_kws(model=const("bogus")))
     res = an.run(f"{LSQ}:lsq_linear", kws=kw, config="model=bogus")
-    rep.check("R-DISPATCH", "lsq_linear(model=<unknown>) raises", bool(res.events("raise")) and not F.final_problems(res),
+    rep.check("R-DISPATCH", "lsq_linear(model=<unknown>) raises", F.raises(res),
               where=res.fn.loc(), construct="lsq_linear(model='bogus')", entry="lsq_linear", config=res.config)
